@@ -26,17 +26,21 @@ from typing import Any, Callable, Dict, List, Optional
 from vf.common import ERROR, HELD, INCONCLUSIVE, NCPU, VIOLATED, Run
 
 _MOD = None
+_INIT_ERROR = None
 
 
 def _worker_init(module_name: str):
-    global _MOD
+    global _MOD, _INIT_ERROR
     import importlib
     import logging
 
-    logging.disable(logging.CRITICAL)
-    import ahbicht.content_evaluation  # noqa: F401  (import order: avoids the circular import of the resolver)
+    try:
+        logging.disable(logging.CRITICAL)
+        import ahbicht.content_evaluation  # noqa: F401  (import order: avoids the circular import of the resolver)
 
-    _MOD = importlib.import_module(module_name)
+        _MOD = importlib.import_module(module_name)
+    except BaseException as e:  # pylint:disable=broad-except
+        _INIT_ERROR = f"{type(e).__name__}: {e}\n{traceback.format_exc()[-2500:]}"
 
 
 def _analyze(fn, timeout: float, per_path: float):
@@ -60,6 +64,9 @@ def _worker_job(job: Dict[str, Any]) -> Dict[str, Any]:
     t0 = time.time()
     c0 = time.process_time()
     out: Dict[str, Any] = {"fn": job["fn"], "globals": job.get("globals", {}), "label": job.get("label")}
+    if _INIT_ERROR is not None:
+        out.update({"state": "WORKER_CRASH", "message": "harness module failed to import: " + _INIT_ERROR, "paths": 0, "reached": 0, "fails": [], "time_s": 0, "cpu_s": 0})
+        return out
     try:
         for k, v in job.get("globals", {}).items():
             setattr(_MOD, k, v)
